@@ -3,32 +3,54 @@
 
   Property theorems only (helper lemmas live in PyndlProofs/Corpus.lean).  They
   are about `Pyndl.Corpus.createCorpus`, the model of
-  `pyndl.corpus.create_corpus_from_gz` (PyndlModel/Corpus.lean), and hold for
-  every tree of paths, every document content, every configuration
-  (frames per second, break duration, marker), every `n_threads ≥ 1`, every
-  subset of dangling links and every set of pre-existing files.
+  `pyndl.corpus.create_corpus_from_gz` (PyndlModel/Corpus.lean).
+
+  ARITHMETIC.  The code computes and compares times in IEEE doubles; the
+  property ("a paragraph break when the pause exceeds the break duration")
+  means exact times.  The model takes the arithmetic as a parameter `Arith τ`
+  (`cfg.arith`): `cfgF fps brk marker` is the code's (Lean `Float` = C double;
+  this is what the driver executes), `cfgQ fps brk marker` the exact one.
+  * Theorems with a generic `cfg : Cfg τ` hold for EVERY arithmetic and every
+    `float()` (the literal reader `cfg.arith.lit` is a parameter), hence for
+    the code's: sorting, threads, `.not_found`, no-overwrite, the error
+    prefix, and the cleaning specification in terms of `cfg.arith.exceeds`.
+  * Theorems that say what the CODE's run is in terms of EXACT times
+    (`corpus_eq`, `not_found_listed`, `corpus_error_prefix`, `clean_document_code`)
+    carry, for every document among the `.gz` files,
+      `TimesExact fps brk d`        — decidable; what `harness/run_C19.py`
+                                      (`times_ok` / `margin_ok`) guarantees of every
+                                      generated document, plus the literal domain;
+      `FloatCompareAgrees fps brk d` — NAMED ASSUMPTION (IEEE-754 rounding, see its
+                                      docstring in PyndlModel/Corpus.lean):
+                                      `TimesExact → CompareAgrees float rational`.
+    Lean's kernel evaluates `Float` on closed terms, so for concrete documents
+    `FloatCompareAgrees` is PROVED (`decide +kernel`, examples below), and the
+    reviewer's counterexample (`E 00:00:03,08` / `S 00:00:08,08`: the code breaks
+    the paragraph, exact arithmetic does not) is a theorem (`boundary_pair`).
+    Before this repair the file claimed "every document content" for a
+    rational-only model; that was false about the code on such pairs.
+  * Literal domain: the code calls `float()` on each of the four fields
+    (corpus.py:31-34).  The executable arithmetics read non-empty ASCII digit
+    strings only; `LitDomain` (part of `TimesExact`) says when that is what
+    `float` does, and `parse_time_error_in_domain` covers the error branch.
+
+  trusted: Lean `Float` +,-,*,/,<,ofNat are the C double operations CPython
+  uses; `floatAccepts` is CPython's `float(str)` grammar on ASCII (compared
+  with the real `float` on 28 465 strings when it was written).
 -/
 import PyndlProofs.Corpus
 
 namespace Pyndl.C19
 open Pyndl Pyndl.Corpus List
 
-/-- the constants the driver evaluates the model with are the ones in the
-    source tree (`Generated.lean` is regenerated from /repo on every run) -/
-theorem constants_current :
-    Generated.framesPerSecond = specFps ∧ Generated.breakDurationTimes10 = 50 ∧
-    Generated.corpusMarker.toList = specMarker ∧
-    Generated.corpusPunctuation.toList = punctuation ∧
-    Generated.corpusSuffix = ".gz" ∧
-    Generated.notFoundSuffix.toList = notFoundSuffix ∧
-    Generated.notFoundTemplate = "{path}-{counter}" := by decide +kernel
-
-/-- **corpus_eq.** When the directory exists, the output file does not, and
-    every `.gz` path is a document that parses or a missing file, the run
-    returns normally and the corpus is the concatenation, over the `.gz` files
-    in sorted path order, of the cleaned sentences of each readable document
-    followed by the end-of-document marker. -/
-theorem corpus_eq (cfg : Cfg) (n : Nat) (directory outfile : Str) (w : World)
+/-- **corpus_eq, for every arithmetic.** When the directory exists, the output
+    file does not, and every `.gz` path is a document that parses or a missing
+    file, the run returns normally and the corpus is the concatenation, over the
+    `.gz` files in sorted path order, of the cleaned sentences of each readable
+    document (`docPieces`, specified by `clean_document` below) followed by the
+    end-of-document marker.  Holds whatever `float()`, the time arithmetic and
+    the comparison are. -/
+theorem corpus_eq_any_arith {τ : Type} (cfg : Cfg τ) (n : Nat) (directory outfile : Str) (w : World)
     (tree : List (Str × Entry)) (hd : w.dirExists = true) (ho : outfile ∉ w.files) (hn : 0 < n)
     (hr : ∀ p ∈ gzFiles directory tree, readable cfg p.2 = true) :
     (createCorpus cfg n directory outfile w tree).raised = none ∧
@@ -36,6 +58,43 @@ theorem corpus_eq (cfg : Cfg) (n : Nat) (directory outfile : Str) (w : World)
       = some ((gzFiles directory tree).flatMap (fun p => docPieces cfg p.2)) := by
   rw [createCorpus_ok cfg n directory outfile w tree hd ho hn hr]
   exact ⟨rfl, rfl⟩
+
+/-- the two hypotheses under which the run over doubles is the run over exact
+    times: every document among the `.gz` files satisfies `TimesExact` (checked,
+    decidable) and `FloatCompareAgrees` (the named IEEE assumption) -/
+theorem code_eq_exact (fps : Nat) (brk : Rat) (marker : Str) (n : Nat) (directory outfile : Str)
+    (w : World) (tree : List (Str × Entry))
+    (hT : AllDocs (TimesExact fps brk) (gzFiles directory tree))
+    (hF : AllDocs (FloatCompareAgrees fps brk) (gzFiles directory tree)) :
+    createCorpus (cfgF fps brk marker) n directory outfile w tree
+      = createCorpus (cfgQ fps brk marker) n directory outfile w tree := by
+  apply createCorpus_agree (cfgF fps brk marker) (cfgQ fps brk marker) rfl
+  intro p hp
+  have h1 := hT p hp
+  have h2 := hF p hp
+  cases he : p.2 with
+  | doc d => rw [he] at h1 h2; exact h2 h1
+  | dangling => trivial
+  | notGzip => trivial
+  | dir => trivial
+
+/-- **corpus_eq** (the code's arithmetic, exact-time specification).  The run
+    over IEEE doubles (`cfgF`) returns normally and writes the concatenation,
+    over the `.gz` files in sorted path order, of the lines of each readable
+    document as the EXACT-time reader (`cfgQ`) cleans it, each followed by the
+    marker — provided every document satisfies `TimesExact` and
+    `FloatCompareAgrees` (see the file header; without them the statement is
+    false: `boundary_pair`). -/
+theorem corpus_eq (fps : Nat) (brk : Rat) (marker : Str) (n : Nat) (directory outfile : Str) (w : World)
+    (tree : List (Str × Entry)) (hd : w.dirExists = true) (ho : outfile ∉ w.files) (hn : 0 < n)
+    (hT : AllDocs (TimesExact fps brk) (gzFiles directory tree))
+    (hF : AllDocs (FloatCompareAgrees fps brk) (gzFiles directory tree))
+    (hr : ∀ p ∈ gzFiles directory tree, readable (cfgQ fps brk marker) p.2 = true) :
+    (createCorpus (cfgF fps brk marker) n directory outfile w tree).raised = none ∧
+    (createCorpus (cfgF fps brk marker) n directory outfile w tree).corpus
+      = some ((gzFiles directory tree).flatMap (fun p => docPieces (cfgQ fps brk marker) p.2)) := by
+  rw [code_eq_exact fps brk marker n directory outfile w tree hT hF]
+  exact corpus_eq_any_arith _ n directory outfile w tree hd ho hn hr
 
 /-- what "the `.gz` files in sorted path order" means: `gzFiles` is a
     permutation of the non-directory paths ending in `.gz` (joined with the
@@ -45,22 +104,32 @@ theorem gz_files_sorted (directory : Str) (tree : List (Str × Entry)) (hn : (tr
     (gzFiles directory tree).Pairwise (fun a b => lexLt a.1 b.1 = true) :=
   ⟨sortBy_perm _ _, sortBy_sortedLt _ _ (gzUnsorted_nodup directory tree hn)⟩
 
-/-- every document is closed by the marker: a readable document contributes its
-    cleaned lines and then exactly the marker. -/
-theorem document_closed_by_marker (cfg : Cfg) (d : Document) (ls : List Str)
-    (h : readClean cfg d = .ok ls) : docPieces cfg (.doc d) = ls ++ [cfg.marker] := by
-  simp [docPieces, h]
-
-/-- an exception in one file ends the run with that exception; the corpus then
-    holds exactly the documents that sort before it and no `.not_found` file is
-    written. -/
-theorem corpus_error_prefix (cfg : Cfg) (n : Nat) (directory outfile : Str) (w : World)
+/-- **corpus_error_prefix, for every arithmetic.** An exception in one file
+    ends the run with that exception; the corpus then holds exactly the
+    documents that sort before it and no `.not_found` file is written. -/
+theorem corpus_error_prefix_any_arith {τ : Type} (cfg : Cfg τ) (n : Nat) (directory outfile : Str) (w : World)
     (tree : List (Str × Entry)) (hd : w.dirExists = true) (ho : outfile ∉ w.files) (hn : 0 < n)
     (pre post : List (Str × Entry)) (p : Str × Entry) (hs : gzFiles directory tree = pre ++ p :: post)
     (hr : ∀ q ∈ pre, readable cfg q.2 = true) (hp : readable cfg p.2 = false) :
     ∃ e, createCorpus cfg n directory outfile w tree
       = ⟨some e, some (pre.flatMap (fun q => docPieces cfg q.2)), none⟩ :=
   createCorpus_error cfg n directory outfile w tree hd ho hn pre post p hs hr hp
+
+/-- **corpus_error_prefix** (the code's arithmetic, exact-time specification):
+    the first file (in sorted order) that the exact-time reader cannot deal
+    with ends the run over doubles with an exception; the corpus holds exactly
+    the exact-time lines of the documents before it; no `.not_found` file. -/
+theorem corpus_error_prefix (fps : Nat) (brk : Rat) (marker : Str) (n : Nat) (directory outfile : Str)
+    (w : World) (tree : List (Str × Entry)) (hd : w.dirExists = true) (ho : outfile ∉ w.files) (hn : 0 < n)
+    (hT : AllDocs (TimesExact fps brk) (gzFiles directory tree))
+    (hF : AllDocs (FloatCompareAgrees fps brk) (gzFiles directory tree))
+    (pre post : List (Str × Entry)) (p : Str × Entry) (hs : gzFiles directory tree = pre ++ p :: post)
+    (hr : ∀ q ∈ pre, readable (cfgQ fps brk marker) q.2 = true)
+    (hp : readable (cfgQ fps brk marker) p.2 = false) :
+    ∃ e, createCorpus (cfgF fps brk marker) n directory outfile w tree
+      = ⟨some e, some (pre.flatMap (fun q => docPieces (cfgQ fps brk marker) q.2)), none⟩ := by
+  rw [code_eq_exact fps brk marker n directory outfile w tree hT hF]
+  exact createCorpus_error _ n directory outfile w tree hd ho hn pre post p hs hr hp
 
 /-- **threads_independent (1).** `Pool.imap` hands out the results in
     submission order whatever order they arrive in: for *every* permutation
@@ -72,7 +141,7 @@ theorem imap_any_arrival_order {α β : Type} (f : α → β) (xs : List α) (ar
 /-- **threads_independent (2).** The whole outcome (exception, corpus,
     `.not_found` file) is the same for every two numbers of worker processes
     `≥ 1` — unconditionally, also for runs that raise. -/
-theorem threads_independent (cfg : Cfg) (n m : Nat) (hn : 0 < n) (hm : 0 < m) (directory outfile : Str)
+theorem threads_independent {τ : Type} (cfg : Cfg τ) (n m : Nat) (hn : 0 < n) (hm : 0 < m) (directory outfile : Str)
     (w : World) (tree : List (Str × Entry)) :
     createCorpus cfg n directory outfile w tree = createCorpus cfg m directory outfile w tree := by
   unfold createCorpus
@@ -80,11 +149,11 @@ theorem threads_independent (cfg : Cfg) (n m : Nat) (hn : 0 < n) (hm : 0 < m) (d
   have h2 : ¬ m = 0 := by omega
   simp only [h1, h2, if_false, imap_eq_map n hn, imap_eq_map m hm]
 
-/-- **not_found_listed.** Under the hypotheses of `corpus_eq`: the run returns
+/-- **not_found_listed, for every arithmetic.** Under the hypotheses of `corpus_eq_any_arith`: the run returns
     normally; the `.not_found` file exists iff some `.gz` path is dangling and
     then holds, in sorted order, one line `path\n` per dangling path — each
     exactly once; the corpus is what the tree without the dangling paths gives. -/
-theorem not_found_listed (cfg : Cfg) (n : Nat) (directory outfile : Str) (w : World)
+theorem not_found_listed_any_arith {τ : Type} (cfg : Cfg τ) (n : Nat) (directory outfile : Str) (w : World)
     (tree : List (Str × Entry)) (hd : w.dirExists = true) (ho : outfile ∉ w.files) (hn : 0 < n)
     (hr : ∀ p ∈ gzFiles directory tree, readable cfg p.2 = true)
     (hnd : (tree.map (·.1)).Nodup) :
@@ -115,6 +184,26 @@ theorem not_found_listed (cfg : Cfg) (n : Nat) (directory outfile : Str) (w : Wo
     simp only [okOutcome]
     rw [flatMap_docPieces_filter]
 
+/-- **not_found_listed** (the code's arithmetic, exact-time specification):
+    `not_found_listed_any_arith` for the run over doubles with the corpus given
+    by the exact-time reader, under `TimesExact` and `FloatCompareAgrees`. -/
+theorem not_found_listed (fps : Nat) (brk : Rat) (marker : Str) (n : Nat) (directory outfile : Str)
+    (w : World) (tree : List (Str × Entry)) (hd : w.dirExists = true) (ho : outfile ∉ w.files) (hn : 0 < n)
+    (hT : AllDocs (TimesExact fps brk) (gzFiles directory tree))
+    (hF : AllDocs (FloatCompareAgrees fps brk) (gzFiles directory tree))
+    (hr : ∀ p ∈ gzFiles directory tree, readable (cfgQ fps brk marker) p.2 = true)
+    (hnd : (tree.map (·.1)).Nodup) :
+    let o := createCorpus (cfgF fps brk marker) n directory outfile w tree
+    let missing := ((gzFiles directory tree).filter (fun p => isDangling p.2)).map (fun p => p.1 ++ ['\n'])
+    o.raised = none ∧
+    o.notFound = (if missing = [] then none
+                  else some (safeWritePath w.files (outfile ++ notFoundSuffix), missing)) ∧
+    (∀ p ∈ gzFiles directory tree, isDangling p.2 = true → missing.count (p.1 ++ ['\n']) = 1) ∧
+    o.corpus = some (((gzFiles directory tree).filter (fun p => !isDangling p.2)).flatMap
+                      (fun p => docPieces (cfgQ fps brk marker) p.2)) := by
+  rw [code_eq_exact fps brk marker n directory outfile w tree hT hF]
+  exact not_found_listed_any_arith _ n directory outfile w tree hd ho hn hr hnd
+
 /-- **sort_total (1).** Python's string order on paths is a strict total order. -/
 theorem sort_total (a b c : Str) :
     lexLt a a = false ∧
@@ -137,14 +226,14 @@ theorem sorted_unique {l₁ l₂ : List (Str × Entry)}
 
 /-- … so the outcome does not depend on the order in which `os.walk` lists the
     tree (determinism of the corpus). -/
-theorem walk_order_irrelevant (cfg : Cfg) (n : Nat) (directory outfile : Str) (w : World)
+theorem walk_order_irrelevant {τ : Type} (cfg : Cfg τ) (n : Nat) (directory outfile : Str) (w : World)
     {t₁ t₂ : List (Str × Entry)} (hp : t₁ ~ t₂) (hnd : (t₁.map (·.1)).Nodup) :
     createCorpus cfg n directory outfile w t₁ = createCorpus cfg n directory outfile w t₂ := by
   unfold createCorpus
   rw [gzFiles_perm directory hp hnd]
 
 /-- **no_overwrite (1).** An existing output file: `OSError`, nothing written. -/
-theorem no_overwrite (cfg : Cfg) (n : Nat) (directory outfile : Str) (w : World)
+theorem no_overwrite {τ : Type} (cfg : Cfg τ) (n : Nat) (directory outfile : Str) (w : World)
     (tree : List (Str × Entry)) (ho : outfile ∈ w.files) :
     createCorpus cfg n directory outfile w tree = ⟨some .io, none, none⟩ := by
   unfold createCorpus
@@ -157,7 +246,7 @@ theorem no_overwrite (cfg : Cfg) (n : Nat) (directory outfile : Str) (w : World)
     creates is not one of the existing files (and is not the corpus file):
     it is the first of `outfile.not_found`, `outfile.not_found-1`, … that does
     not exist. -/
-theorem no_overwrite_not_found (cfg : Cfg) (n : Nat) (directory outfile : Str) (w : World)
+theorem no_overwrite_not_found {τ : Type} (cfg : Cfg τ) (n : Nat) (directory outfile : Str) (w : World)
     (tree : List (Str × Entry)) (name : Str) (lines : List Str)
     (h : (createCorpus cfg n directory outfile w tree).notFound = some (name, lines)) :
     name ∉ w.files ∧ name ≠ outfile ∧
@@ -193,15 +282,162 @@ theorem no_overwrite_not_found (cfg : Cfg) (n : Nat) (directory outfile : Str) (
   · obtain ⟨k, hk, _, hfirst⟩ := safeWritePath_spec w.files (outfile ++ notFoundSuffix)
     exact ⟨k, hk, hfirst⟩
 
+/-! ## Cleaned sentences
+
+What `read_clean_gzfile` yields, as a function of the words and time tags, for
+every arithmetic (`cfg.arith`): punctuation attaches to the preceding word,
+blanks are stripped, empty sentences are skipped, one `'\n'` is prepended per
+paragraph break, and a paragraph break is an `S` tag whose time exceeds the
+`last_time` (time of the latest `E` tag seen so far in the document, initially
+`0.0`) by more than the break duration. -/
+
+/-- **clean_words.** The words of a sentence are joined by writing every
+    punctuation mark (one of `. , : ; ? ! ( ) [ ] '`, as a text of its own) as it
+    is and every other text with one blank before it (`token`); a `<w>` without
+    text makes the sentence — and the document — raise `ValueError`. -/
+theorem clean_words :
+    (∀ ts : List Str, joinWords (ts.map some) = .ok (ts.flatMap token)) ∧
+    (∀ t : Str, token t = if isPunct t then t else ' ' :: t) ∧
+    (∀ t : Str, isPunct t = true ↔ ∃ c, t = [c] ∧ c ∈ punctuation) ∧
+    (∀ ws : List (Option Str), none ∈ ws → joinWords ws = .error .value) ∧
+    (∀ ws : List (Option Str), (∃ ts : List Str, ws = ts.map some) ∨ none ∈ ws) := by
+  refine ⟨joinWords_some, fun _ => rfl, ?_, joinWords_error, all_some_or_none⟩
+  intro t
+  constructor
+  · intro h
+    match t, h with
+    | [c], h => exact ⟨c, rfl, by simpa [isPunct] using h⟩
+  · rintro ⟨c, rfl, hc⟩
+    simpa [isPunct] using hc
+
+/-- **clean_strip.** `strip` removes exactly the leading and trailing blanks
+    (`str.isspace` characters): every string is blanks, its stripped part,
+    blanks; the stripped part neither starts nor ends with a blank; and it is
+    the only middle part with that property. -/
+theorem clean_strip (s : Str) :
+    (∃ pre post, s = pre ++ strip s ++ post ∧ (∀ c ∈ pre, isPySpace c = true) ∧
+      (∀ c ∈ post, isPySpace c = true)) ∧
+    (∀ c, (strip s).head? = some c → isPySpace c = false) ∧
+    (∀ c, (strip s).getLast? = some c → isPySpace c = false) ∧
+    (∀ pre m post, s = pre ++ m ++ post → (∀ c ∈ pre, isPySpace c = true) →
+      (∀ c ∈ post, isPySpace c = true) → (∀ c, m.head? = some c → isPySpace c = false) →
+      (∀ c, m.getLast? = some c → isPySpace c = false) → strip s = m) :=
+  ⟨strip_decomp s, (strip_ends s).1, (strip_ends s).2,
+    fun pre m post e h1 h2 h3 h4 => e ▸ strip_eq_middle pre m post h1 h2 h3 h4⟩
+
+/-- **clean_sentence.** One `<s>` element with words `ts` (all present),
+    entered with `last_time = last`:
+    (1) if the joined words are blank, nothing is yielded, `last_time` stays,
+        and the time tags are not even parsed;
+    (2) otherwise, with acceptable time tags (value parses, id ends in `S` or
+        `E`), the line is `breakCount` times `'\n'`, the stripped joined words,
+        `'\n'`, and `last_time` becomes the time of the last `E` tag;
+    (3) otherwise the first unacceptable tag raises `ValueError`. -/
+theorem clean_sentence {τ : Type} (cfg : Cfg τ) (last : τ) (s : Sentence) (ts : List Str)
+    (hw : s.words = ts.map some) :
+    (strip (ts.flatMap token) = [] → sentenceLine cfg last s = .ok (none, last)) ∧
+    (strip (ts.flatMap token) ≠ [] → (∀ t ∈ s.times, tagOk cfg t = true) →
+      sentenceLine cfg last s
+        = .ok (some (List.replicate (breakCount cfg last s.times) '\n' ++ strip (ts.flatMap token) ++ ['\n']),
+               lastE cfg last s.times)) ∧
+    (strip (ts.flatMap token) ≠ [] → ∀ pre t post, s.times = pre ++ t :: post →
+      (∀ u ∈ pre, tagOk cfg u = true) → tagOk cfg t = false →
+      sentenceLine cfg last s = .error .value) :=
+  ⟨sentence_empty cfg last s ts hw, sentence_line cfg last s ts hw,
+    fun hne pre t post e h1 hb => sentence_tag_error cfg last s ts hw hne pre post t e h1 hb⟩
+
+/-- **paragraph_break_iff** (what `breakCount` counts, in exact times): the tag
+    `t`, met while `last_time = l`, starts a new paragraph iff it is an `S` tag
+    whose time exceeds `l` by MORE than the break duration.  (`breakCount cfg
+    last tags` is by definition the number of tags `t` of the sentence for which
+    this holds with `l = lastE cfg last pre`, `pre` the tags before `t`.) -/
+theorem paragraph_break_iff (fps : Nat) (brk : Rat) (marker : Str) (l : Rat) (t : TimeTag) :
+    breaksAt (cfgQ fps brk marker) l t = true ↔
+      isS t = true ∧ ∃ cur, parseTime (ratArith fps brk) t.value = .ok cur ∧ cur - l > brk := by
+  unfold breaksAt cfgQ
+  simp only [Bool.and_eq_true]
+  constructor
+  · rintro ⟨hs, h⟩
+    refine ⟨hs, ?_⟩
+    cases hp : parseTime (ratArith fps brk) t.value with
+    | error e => rw [hp] at h; cases h
+    | ok cur =>
+      rw [hp] at h
+      exact ⟨cur, rfl, by simpa [ratArith] using h⟩
+  · rintro ⟨hs, cur, hp, hgt⟩
+    refine ⟨hs, ?_⟩
+    rw [hp]
+    simpa [ratArith] using hgt
+
+/-- the exact time of `hh:mm:ss,ff` (any number of digits per field; `,` and
+    `:` are interchangeable): `hh·3600 + mm·60 + ss + ff/fps` -/
+theorem parse_time_exact (fps : Nat) (brk : Rat) (v : Str) (h m s f : Str) (a b c e : Nat)
+    (hf : fields v = [h, m, s, f]) (ha : parseNat h = some a) (hb : parseNat m = some b)
+    (hc : parseNat s = some c) (he : parseNat f = some e) :
+    parseTime (ratArith fps brk) v
+      = .ok ((a : Rat) * 60 * 60 + (b : Rat) * 60 + (c : Rat) + (e : Rat) / (fps : Rat)) := by
+  unfold fields at hf
+  unfold parseTime
+  rw [hf]
+  simp [ratArith, ha, hb, hc, he]
+
+/-- **parse_time_spec** (`_parse_time_string`, both branches, every `float()`):
+    exactly four fields that `float` accepts give the time formed from them;
+    anything else raises `ValueError`. -/
+theorem parse_time_spec {τ : Type} (A : Arith τ) (v : Str) :
+    (∃ h m s f a b c e, fields v = [h, m, s, f] ∧ A.lit h = some a ∧ A.lit m = some b ∧
+        A.lit s = some c ∧ A.lit f = some e ∧ parseTime A v = .ok (A.time a b c e)) ∨
+    (((fields v).length ≠ 4 ∨ ∃ x ∈ fields v, A.lit x = none) ∧ parseTime A v = .error .value) :=
+  parseTime_spec A v
+
+/-- **parse_time_error_in_domain** (the literal domain made explicit).  The
+    executable arithmetics read a field with `parseNat`: exactly the non-empty
+    ASCII digit strings.  For a time value in `LitDomain` their `ValueError` is
+    the code's: it is raised iff the value does not have four fields or has a
+    field that CPython's `float` grammar rejects.  Outside `LitDomain`
+    (`'00:00:1.5,00'`, `'00:00:+1,00'`, …: `float` accepts, the model does not)
+    no theorem of this file speaks about the code. -/
+theorem parse_time_error_in_domain (fps : Nat) (brk : Rat) (v : Str) (hdom : LitDomain v = true) :
+    (parseTime (ratArith fps brk) v = .error .value ↔
+      ((fields v).length ≠ 4 ∨ ∃ x ∈ fields v, floatRejects x = true)) ∧
+    (∀ f : Str, (parseNat f).isSome = (!f.isEmpty && f.all isAsciiDigit)) ∧
+    (∀ f : Str, f ≠ [] → f.all isAsciiDigit = true → floatAccepts f = true) :=
+  ⟨parseTime_error_in_domain fps brk v hdom, parseNat_isSome, digits_floatAccepts⟩
+
+/-- **clean_document.** For every arithmetic: a document is either read
+    completely — then its lines are, in document order, the lines (`lineOf`:
+    `'\n'` per paragraph break, stripped joined words, `'\n'`) of the sentences
+    that are not skipped, each entered with `last_time` = the time of the last
+    `E` tag among the tags of the kept sentences before it (`0.0` if none) —
+    or, if some sentence has a `<w>` without text or (not being skipped) an
+    unacceptable time tag, raises `ValueError` and yields nothing. -/
+theorem clean_document {τ : Type} (cfg : Cfg τ) (d : Document) :
+    (d.all (regular cfg) = true ∧
+      readClean cfg d = .ok ((d.inits.zip d).filterMap
+        (fun p => lineOf cfg (lastE cfg cfg.arith.zero (keptTags p.1)) p.2))) ∨
+    (d.all (regular cfg) = false ∧ readClean cfg d = .error .value) :=
+  readClean_total cfg d
+
+/-- **clean_document_code.** On a document satisfying `TimesExact` and the
+    named assumption `FloatCompareAgrees`, the reader over doubles (the code)
+    yields exactly what the reader over exact times yields — the same lines or
+    the same exception — so `clean_document` with `paragraph_break_iff`
+    describes the code's output. -/
+theorem clean_document_code (fps : Nat) (brk : Rat) (marker : Str) (d : Document)
+    (hT : TimesExact fps brk d) (hF : FloatCompareAgrees fps brk d) :
+    readClean (cfgF fps brk marker) d = readClean (cfgQ fps brk marker) d :=
+  readClean_agree (cfgF fps brk marker) (cfgQ fps brk marker) d (hF hT)
+
 /-! ## Non-vacuity
 
 A concrete tree (directory `t`): `b.gz` with a pause of 6 s > 5 s before the
 first sentence (paragraph break), punctuation and an empty sentence whose bad
 time tag is skipped; `B.gz` dangling; a nested `a/x.gz` (empty document), a
 directory named `d.gz`, a non-`.gz` file.  `B.gz` sorts before `a/x.gz` before
-`b.gz` (code points).  The hypotheses of `corpus_eq` / `not_found_listed` hold
-and the outcome is the expected non-trivial one; an existing
-`out.not_found` moves the list to `out.not_found-1`. -/
+`b.gz` (code points).  ALL hypotheses of `corpus_eq` / `not_found_listed` hold —
+`TimesExact` and `FloatCompareAgrees` are evaluated by the kernel, doubles
+included — and the outcome of the run over doubles is the expected non-trivial
+one; an existing `out.not_found` moves the list to `out.not_found-1`. -/
 
 def exTree : List (Str × Entry) :=
   [("b.gz".toList, .doc [⟨[some "Hi".toList, some ",".toList, some "you".toList],
@@ -214,26 +450,164 @@ def exTree : List (Str × Entry) :=
 
 def exWorld : World := ⟨true, ["out.not_found".toList]⟩
 
+theorem exTree_times_exact : AllDocs (TimesExact specFps specBreak) (gzFiles "t".toList exTree) := by
+  decide +kernel
+
+/-- the named assumption, PROVED for this tree: the kernel evaluates the doubles -/
+theorem exTree_float_agrees : AllDocs (FloatCompareAgrees specFps specBreak) (gzFiles "t".toList exTree) := by
+  decide +kernel
+
+theorem exTree_readable : ∀ p ∈ gzFiles "t".toList exTree, readable specCfg p.2 = true := by
+  decide +kernel
+
+/-- `corpus_eq` and `not_found_listed` applied: every hypothesis instantiated -/
 example :
-    (∀ p ∈ gzFiles "t".toList exTree, readable specCfg p.2 = true) ∧
+    (createCorpus specCfgF 3 "t".toList "out".toList exWorld exTree).raised = none ∧
+    (createCorpus specCfgF 3 "t".toList "out".toList exWorld exTree).corpus
+      = some ((gzFiles "t".toList exTree).flatMap (fun p => docPieces specCfg p.2)) :=
+  corpus_eq specFps specBreak specMarker 3 "t".toList "out".toList exWorld exTree (by decide +kernel)
+    (by decide +kernel) (by decide) exTree_times_exact exTree_float_agrees exTree_readable
+
+example :=
+  not_found_listed specFps specBreak specMarker 3 "t".toList "out".toList exWorld exTree (by decide +kernel)
+    (by decide +kernel) (by decide) exTree_times_exact exTree_float_agrees exTree_readable
+    (by decide +kernel)
+
+/-- … and what they say here, evaluated for the run over doubles -/
+example :
     (gzFiles "t".toList exTree).map (·.1) = ["t/B.gz".toList, "t/a/x.gz".toList, "t/b.gz".toList] ∧
-    createCorpus specCfg 3 "t".toList "out".toList exWorld exTree
+    createCorpus specCfgF 3 "t".toList "out".toList exWorld exTree
       = ⟨none,
          some ["\n---END.OF.DOCUMENT---\n\n".toList, "\nHi, you\n".toList, "ok.\n".toList,
                "\n---END.OF.DOCUMENT---\n\n".toList],
          some ("out.not_found-1".toList, ["t/B.gz\n".toList])⟩ := by
   decide +kernel
 
-/-- a pause of 5 s − 1 frame gives no break, 5 s + 1 frame gives one -/
-example :
-    readClean specCfg [⟨[some "a".toList], [⟨"E".toList, "00:00:01,00".toList⟩]⟩,
-                       ⟨[some "b".toList], [⟨"S".toList, "00:00:05,29".toList⟩]⟩,
-                       ⟨[some "c".toList], [⟨"S".toList, "00:00:06,01".toList⟩]⟩]
-      = .ok ["a\n".toList, "b\n".toList, "\nc\n".toList] := by
-  decide +kernel
+/-- `corpus_error_prefix` applied: a third file `c.gz` whose only sentence has
+    an unknown tag type; the corpus holds the two documents before it -/
+def exTreeBad : List (Str × Entry) :=
+  exTree ++ [("c.gz".toList, .doc [⟨[some "x".toList], [⟨"T1X".toList, "00:00:01,00".toList⟩]⟩])]
+
+example : ∃ e, createCorpus specCfgF 2 "t".toList "out".toList exWorld exTreeBad
+    = ⟨some e, some (((gzFiles "t".toList exTreeBad).take 3).flatMap (fun q => docPieces specCfg q.2)), none⟩ :=
+  corpus_error_prefix specFps specBreak specMarker 2 "t".toList "out".toList exWorld exTreeBad
+    (by decide +kernel) (by decide +kernel) (by decide) (by decide +kernel) (by decide +kernel)
+    ((gzFiles "t".toList exTreeBad).take 3) []
+    ("t/c.gz".toList, .doc [⟨[some "x".toList], [⟨"T1X".toList, "00:00:01,00".toList⟩]⟩])
+    (by decide +kernel) (by decide +kernel) (by decide +kernel)
+
+/-- a pause of 5 s − 1 frame gives no break, 5 s + 1 frame gives one — in exact
+    times and in doubles (the document satisfies `TimesExact`) -/
+def exPause : Document :=
+  [⟨[some "a".toList], [⟨"E".toList, "00:00:01,00".toList⟩]⟩,
+   ⟨[some "b".toList], [⟨"S".toList, "00:00:05,29".toList⟩]⟩,
+   ⟨[some "c".toList], [⟨"S".toList, "00:00:06,01".toList⟩]⟩]
+
+example : TimesExact specFps specBreak exPause ∧ FloatCompareAgrees specFps specBreak exPause ∧
+    readClean specCfg exPause = .ok ["a\n".toList, "b\n".toList, "\nc\n".toList] ∧
+    readClean specCfgF exPause = .ok ["a\n".toList, "b\n".toList, "\nc\n".toList] := by
+  refine ⟨by decide +kernel, by decide +kernel, by decide +kernel, by decide +kernel⟩
+
+/-- whole seconds: a pause of exactly 5 s (no break: the test is `>`) satisfies
+    `TimesExact` by its second clause, and the doubles agree -/
+def exWhole : Document :=
+  [⟨[some "a".toList], [⟨"E".toList, "00:00:03,00".toList⟩]⟩,
+   ⟨[some "b".toList], [⟨"S".toList, "00:00:08,00".toList⟩, ⟨"E".toList, "00:00:07,30".toList⟩]⟩,
+   ⟨[some "c".toList], [⟨"S".toList, "00:00:14:00".toList⟩]⟩]
+
+example : TimesExact specFps specBreak exWhole ∧ FloatCompareAgrees specFps specBreak exWhole ∧
+    readClean specCfgF exWhole = .ok ["a\n".toList, "b\n".toList, "\nc\n".toList] := by
+  refine ⟨by decide +kernel, by decide +kernel, by decide +kernel⟩
+
+/-- **boundary_pair** (the reviewer's input): `E 00:00:03,08` then
+    `S 00:00:08,08` is a pause of exactly 5 s between fractional times.  The
+    double difference is 5.000000000000001 > 5.0: the CODE (and the model over
+    doubles) starts a new paragraph, exact arithmetic does not.  The document
+    violates `TimesExact` and `CompareAgrees`; this is why the hypotheses of
+    `corpus_eq` are needed. -/
+def exBoundary : Document :=
+  [⟨[some "a".toList], [⟨"E".toList, "00:00:03,08".toList⟩]⟩,
+   ⟨[some "b".toList], [⟨"S".toList, "00:00:08,08".toList⟩]⟩]
+
+theorem boundary_pair :
+    readClean specCfgF exBoundary = .ok ["a\n".toList, "\nb\n".toList] ∧
+    readClean specCfg exBoundary = .ok ["a\n".toList, "b\n".toList] ∧
+    ¬ TimesExact specFps specBreak exBoundary ∧
+    ¬ CompareAgrees specCfgF.arith specCfg.arith exBoundary := by
+  refine ⟨by decide +kernel, by decide +kernel, by decide +kernel, by decide +kernel⟩
 
 /-- an unknown tag type is a `ValueError` -/
 example : readClean specCfg [⟨[some "a".toList], [⟨"T1X".toList, "00:00:01,00".toList⟩]⟩] = .error .value := by
   decide +kernel
+
+/-- `clean_sentence` (2) instantiated: punctuation attaches, odd blanks are
+    stripped, two `S` tags of which the second comes after an `E` tag of the
+    same sentence: one break (6 s − 0 > 5), not two (12.47 s − 7.5 s < 5) -/
+def exSentence : Sentence :=
+  ⟨[some "\t".toList, some "Hi".toList, some ",".toList, some "you".toList, some "!".toList, some " ".toList],
+   [⟨"T1S".toList, "00:00:06,00".toList⟩, ⟨"T1E".toList, "00:00:07,15".toList⟩,
+    ⟨"T2S".toList, "00:00:12,14".toList⟩]⟩
+
+example :
+    sentenceLine specCfg 0 exSentence = .ok (some "\nHi, you!\n".toList, (15 : Rat) / 2) ∧
+    breakCount specCfg 0 exSentence.times = 1 ∧
+    strip (["\t".toList, "Hi".toList, ",".toList, "you".toList, "!".toList, " ".toList].flatMap token)
+      = "Hi, you!".toList ∧
+    (∀ t ∈ exSentence.times, tagOk specCfg t = true) := by
+  refine ⟨by decide +kernel, by decide +kernel, by decide +kernel, by decide +kernel⟩
+
+/-- `clean_document` instantiated: the document is regular (the skipped
+    sentence's bad tag does not matter) and the closed form is the list of lines -/
+def exDoc : Document :=
+  [exSentence, ⟨[some " ".toList], [⟨"TX".toList, "bad".toList⟩]⟩,
+   ⟨[some "ok".toList, some ".".toList], [⟨"T2S".toList, "00:00:12,14".toList⟩]⟩]
+
+example :
+    exDoc.all (regular specCfg) = true ∧
+    (exDoc.inits.zip exDoc).filterMap (fun p => lineOf specCfg (lastE specCfg 0 (keptTags p.1)) p.2)
+      = ["\nHi, you!\n".toList, "ok.\n".toList] ∧
+    readClean specCfg exDoc = .ok ["\nHi, you!\n".toList, "ok.\n".toList] := by
+  refine ⟨by decide +kernel, by decide +kernel, by decide +kernel⟩
+
+/-- the literal domain: digit fields and certainly rejected fields are inside,
+    spellings only `float` accepts are outside (and there the model's
+    `ValueError` is not the code's behaviour) -/
+example :
+    LitDomain "00:00:06,00".toList = true ∧ LitDomain "00:00:0a,00".toList = true ∧
+    LitDomain "00:00:,00".toList = true ∧ LitDomain "abc".toList = true ∧
+    LitDomain "00:00:1.5,00".toList = false ∧ LitDomain "00:00:+1,00".toList = false ∧
+    LitDomain "00:00: 1,00".toList = false ∧ LitDomain "00:00:1_0,00".toList = false ∧
+    LitDomain "00:00:1e1,00".toList = false ∧ LitDomain "00:00:nan,00".toList = false ∧
+    LitDomain "00:00:1.5,xx".toList = true := by
+  decide +kernel
+
+/-- a document with such a spelling is outside `TimesExact`: none of the
+    exact-time theorems speaks about it -/
+example : ¬ TimesExact specFps specBreak [⟨[some "a".toList], [⟨"T1S".toList, "00:00:1.5,00".toList⟩]⟩] := by
+  decide +kernel
+
+example : parseTime (ratArith 30 5) "01:02:03,15".toList = .ok ((7447 : Rat) / 2) ∧
+    parseTime (ratArith 30 5) "00:00:0a,00".toList = .error .value ∧
+    parseTime (ratArith 30 5) "00:00:01".toList = .error .value := by
+  decide +kernel
+
+/-! ### lemmas (not property theorems) -/
+
+/-- (definitional) the constants the driver evaluates the model with are the ones in the
+    source tree (`Generated.lean` is regenerated from /repo on every run) -/
+theorem constants_current :
+    Generated.framesPerSecond = specFps ∧ Generated.breakDurationTimes10 = 50 ∧
+    Generated.corpusMarker.toList = specMarker ∧
+    Generated.corpusPunctuation.toList = punctuation ∧
+    Generated.corpusSuffix = ".gz" ∧
+    Generated.notFoundSuffix.toList = notFoundSuffix ∧
+    Generated.notFoundTemplate = "{path}-{counter}" := by decide +kernel
+
+/-- (definitional) every document is closed by the marker: a readable document contributes its
+    cleaned lines and then exactly the marker. -/
+theorem document_closed_by_marker {τ : Type} (cfg : Cfg τ) (d : Document) (ls : List Str)
+    (h : readClean cfg d = .ok ls) : docPieces cfg (.doc d) = ls ++ [cfg.marker] := by
+  simp [docPieces, h]
+
 
 end Pyndl.C19
